@@ -102,7 +102,6 @@ func countSeq(s []value, c value) int {
 	return n
 }
 
-
 func init() {
 	noop := func(fr *frame, args []value) value { return nil }
 	for name, fn := range map[string]externalFn{
@@ -158,6 +157,13 @@ func init() {
 		"(*strings.Builder).grow":      func(fr *frame, a []value) value { return nil },
 		"(*strings.Builder).Grow":      func(fr *frame, a []value) value { return nil },
 		"strings.Clone":                func(fr *frame, a []value) value { return a[0] },
+		"internal/stringslite.Clone":   func(fr *frame, a []value) value { return a[0] },
+		"bytes.Clone": func(fr *frame, a []value) value {
+			if s, ok := a[0].([]value); ok && s != nil {
+				return append([]value{}, s...)
+			}
+			return a[0]
+		},
 
 		// ---- sync / atomic: single-threaded unless the scheduler is active
 		"(*sync.Mutex).Lock":      syncOp("Lock"),
